@@ -8,11 +8,13 @@ From Coq Require Import List NArith ZArith Lia Bool Arith.
 From Coq Require Import Init.Byte.
 From FFS Require Import Base.Res Base.Bytes Base.Lit Base.Keccak Rlp.Model Rlp.Spec Tx.Model Tx.Spec
   Tx.RecoverModel.
+From FFS Require Secp.Model.
 Import ListNotations.
 
-(* ---------- stand-in for (s *SignatureData).RecoverDirect of pkg/secp256k1 (property C05 owns its
-   model; this mirror is used only to *run* cases): getVNormalized, the range checks on R and S, then
-   btcec RecoverCompact + PublicKeyToAddress looked up in the oracle table of the case. ---------- *)
+(* ---------- (s *SignatureData).RecoverDirect of pkg/secp256k1 for *running* cases: property C05's model
+   of getVNormalized, the range checks on R and S of RecoverDirect, and — instead of curve arithmetic in
+   vm_compute (0.65 s per recovery) — btcec RecoverCompact + PublicKeyToAddress looked up in the oracle
+   table of the case, which the harness fills by calling the decred library directly. ---------- *)
 
 (* one oracle entry: digest, normalised V (27/28), R, S -> address of the recovered key, or None when
    the library refuses the signature.  Filled by the harness by calling decred/btcec directly. *)
@@ -23,13 +25,14 @@ Definition lit_N (d : bdsl) : N := of_be (bexpand d).
 Definition EOracleMiss := 999%nat.
 Definition ESecp := 1%nat.
 
+(* V normalisation: property C05's model of getVNormalized itself (it does not depend on the curve),
+   so a change b-c05 makes to it is picked up here without editing this file *)
 Definition getVNormalized (v chain : Z) : res Z :=
-  (* !s.V.IsInt64() *)
-  if negb ((- 2 ^ 63 <=? v)%Z && (v <? 2 ^ 63)%Z) then Err ESecp else
-  let vB := if (v =? 0)%Z || (v =? 1)%Z then ((v + 27) mod 256)%Z
-            else if (v =? 27)%Z || (v =? 28)%Z then (v mod 256)%Z
-            else ((wrap64 (wrap64 (wrap64 (v - 35) - wrap64 (chain * 2)) + 27)) mod 256)%Z in
-  if negb (vB =? 27)%Z && negb (vB =? 28)%Z then Err ESecp else Ok vB.
+  match FFS.Secp.Model.getVNormalized (FFS.Secp.Model.Build_sigdata v 0 0) chain with
+  | Ok vB => Ok vB
+  | Err _ => Err ESecp
+  | Panic => Panic
+  end.
 
 Fixpoint orc_lookup (orc : list oentry) (d : bytes) (v r s : N) : option (option bytes) :=
   match orc with
